@@ -50,7 +50,7 @@ def gen_grammars(prop, tier, n, profile):
         k = g.key()
         if k in seen: return
         seen.add(k); out.append(g)
-    core = gg.core_grammars()
+    core = gg.core_grammars(wide=(profile in ('plain', 'allclasses')))
     if profile == 'plain':
         for g in core: add(g)
         for g in core[:12]: add(gg.shuffle_symbols(g, rnd))
